@@ -338,6 +338,17 @@ class ArrInterp(ResultInterp):
                     # x = (x != 0) in place: the array is binarised
                     self.store_subscript_hook(tgt, AMask(tgt, "nonzero"), 1, node)
                     return tgt
+                if isinstance(tgt, AArr) and tgt is not args[0] and tgt.is_fresh() and (getattr(tgt, "uninitialised_like", None) is args[0] or getattr(tgt, "uninitialised_side", None) == args[0].side) and m.kind == "nonzero":
+                    # comparison written into a freshly allocated array of the input's dtype:
+                    # a binarised copy of the input
+                    src = args[0]
+                    tgt.side, tgt.selection, tgt.casts = src.side, src.selection, list(src.casts)
+                    tgt.content = "bin" if (src.content in ("labels", "bin", "bool") and not src.casts) else f"opaque:binarised {src.content}"
+                    tgt.empty_unknown = Unknown(f"empty:{src.side}")
+                    tgt.uninitialised_like = None
+                    tgt.uninitialised_side = None
+                    tgt.values_changed()
+                    return tgt
         if name in ("numpy.logical_not", "numpy.invert", "numpy.bitwise_not") and args and isinstance(args[0], AMask) and not (set(kwargs) - {"out"}):
             m = args[0]
             flip = {"nonzero": "zero", "zero": "nonzero", "isin": "notin", "notin": "isin"}.get(m.kind)
@@ -367,6 +378,16 @@ class ArrInterp(ResultInterp):
             return Reduction("sum" if name.endswith("sum") else "max", args[0])
         if name in ("numpy.any",) and args and isinstance(args[0], AArr):
             return EmptyTest(args[0], negate=True)
+        if name in ("numpy.empty_like", "numpy.zeros_like") and args and isinstance(args[0], AArr) and not (set(kwargs) - {"order", "subok"}):
+            out = AArr(args[0].side, True, "opaque:uninitialised" if name.endswith("empty_like") else "zeros", None)
+            out.uninitialised_like = args[0]
+            return out
+        if name in ("numpy.empty", "numpy.zeros") and args and isinstance(args[0], Sym) and args[0].name.endswith(".shape") and isinstance(kwargs.get("dtype", args[1] if len(args) > 1 else None), Sym):
+            sh, dt = args[0].name[: -len(".shape")], kwargs.get("dtype", args[1] if len(args) > 1 else None).name
+            if dt == f"dtypeof:{sh}" and not (set(kwargs) - {"dtype", "order"}):
+                out = AArr(sh, True, "opaque:uninitialised" if name.endswith("empty") else "zeros", None)
+                out.uninitialised_side = sh  # shape and dtype of that input, no values yet
+                return out
         if name in ("numpy.copy", "numpy.array") and args and isinstance(args[0], AArr):
             return self.arr_method(args[0], "copy", [], {}, node)
         if name in ("numpy.asarray", "numpy.atleast_1d", "numpy.ascontiguousarray") and args and isinstance(args[0], AArr):
